@@ -125,7 +125,9 @@ func runC09(cx *Ctx, r *Report) {
 				if isSymbol(a) {
 					bad = a // a denom handed over as a plain string (GetSupply, GetBalance)
 				}
-				if c := findSub(a, func(t *Term) bool { return t.Op == "call" && t.Name == "coin" && len(t.Args) == 2 && isSymbol(t.Args[0]) }); c != nil {
+				if c := findSub(a, func(t *Term) bool {
+					return t.Op == "call" && t.Name == "coin" && len(t.Args) == 2 && isSymbol(t.Args[0])
+				}); c != nil {
 					bad = c.Args[0]
 				}
 			}
